@@ -61,8 +61,8 @@ impl Scenario for Pairs {
     }
     fn runs(&self, tier: Tier) -> u64 {
         match tier {
-            Tier::Quick => 100_000,
-            Tier::Thorough => 10_000_000,
+            Tier::Quick => 300000,
+            Tier::Thorough => 15000000,
         }
     }
     fn declare(&self, cov: &mut Cov) {
@@ -72,8 +72,8 @@ impl Scenario for Pairs {
         cov.declare("keys_seen_down_and_up", 2 * NKEYS);
         cov.probe_declare("two_keys_held_at_once");
         cov.probe_declare("typematic_repeat");
-        cov.probe_declare("unknown_key_pressed_and_released");
-        cov.probe_declare("status_code_pressed");
+        cov.probe_declare("obs_unknown_key_pressed_and_released");
+        cov.probe_declare("obs_status_code_pressed");
         cov.probe_declare("quiescent_point_checked");
     }
     fn generate(&self, rng: &mut Rng, run: u64, tier: Tier) -> Trace {
@@ -110,6 +110,9 @@ impl Scenario for Pairs {
         let mut host_held: BTreeMap<usize, (u8, u8)> = BTreeMap::new();
         let mut typist_held: Vec<(u8, u8)> = Vec::new();
         let mut last_t = 0;
+        // the host's decoder for the whole session (one long-lived object), next to the
+        // fresh decoder that judges each sequence on its own
+        let mut session = DynSet::new(set);
         'ops: for (i, top) in trace.ops.iter().enumerate() {
             env.cur_op = i;
             last_t = top.t.max(last_t);
@@ -121,8 +124,37 @@ impl Scenario for Pairs {
                 continue;
             }
             let bytes = if set == 2 { encode_set2(pfx, code, brk) } else { encode_xt(pfx, code, brk) };
-            let (prefix_ok, r, calls) = decode_fresh(set, &bytes);
+            let (prefix_ok, r_fresh, calls) = decode_fresh(set, &bytes);
             env.cov.api_calls += calls;
+            // what the session decoder makes of the same bytes in the stream
+            let mut r = Res::Pending;
+            let mut sess_prefix_ok = true;
+            for (j, b) in bytes.iter().enumerate() {
+                let x = Res::of(&session.advance_state(*b));
+                env.cov.api_calls += 1;
+                if j + 1 < bytes.len() {
+                    if x != Res::Pending {
+                        sess_prefix_ok = false;
+                    }
+                } else {
+                    r = x;
+                }
+            }
+            if r != r_fresh || !sess_prefix_ok {
+                violation = Some(Violation {
+                    oracle: "sequence-means-the-same-in-a-session".into(),
+                    op_index: i,
+                    detail: format!(
+                        "Set {} sequence {:02X?} decodes as {} on its own but as {} in the typing session (after the earlier complete sequences){}",
+                        set,
+                        bytes,
+                        r_fresh.show(),
+                        r.show(),
+                        if sess_prefix_ok { "" } else { "; a prefix byte already produced a result" }
+                    ),
+                });
+                break 'ops;
+            }
             env.cov.evaluations += 1;
             h.mix(((pfx as u64) << 9 | (code as u64) << 1 | brk as u64) ^ (r.hash() << 20));
             env.cov.hit("physical_key_x_direction", c19_cell(set, pfx, code, brk));
@@ -170,7 +202,7 @@ impl Scenario for Pairs {
                         }
                         host_held.insert(ki, (pfx, code));
                     }
-                    Res::Ev(_, KeyState::SingleShot) => env.cov.probe("status_code_pressed"),
+                    Res::Ev(_, KeyState::SingleShot) => env.cov.probe("obs_status_code_pressed"),
                     Res::Ev(k, KeyState::Up) => {
                         violation = Some(Violation {
                             oracle: "make-break-pairing".into(),
@@ -200,7 +232,7 @@ impl Scenario for Pairs {
                     _ => false,
                 };
                 if let (Res::Err(_), Res::Err(_)) = (make, r) {
-                    env.cov.probe("unknown_key_pressed_and_released");
+                    env.cov.probe("obs_unknown_key_pressed_and_released");
                 }
                 if !ok {
                     violation = Some(Violation {
@@ -343,6 +375,12 @@ fn set1_expressible(k: KeyCode) -> bool {
 fn xl_codes() -> Vec<u8> {
     (0u16..=0xFF).map(|c| c as u8).filter(|c| translatable(*c)).collect()
 }
+/// Set 2 codes 47 and 4F translate to 60 and 61, whose break forms E0 / E1 are the
+/// Set 1 prefix bytes: no key can live there in both sets, so the shared keyboard
+/// does not have them (they would desynchronise host B by construction).
+fn c13_domain(code: u8) -> bool {
+    translatable(code) && code != 0x47 && code != 0x4F
+}
 
 impl Scenario for Dual {
     fn id(&self) -> &'static str {
@@ -353,20 +391,21 @@ impl Scenario for Dual {
     }
     fn runs(&self, tier: Tier) -> u64 {
         match tier {
-            Tier::Quick => 100_000,
-            Tier::Thorough => 10_000_000,
+            Tier::Quick => 200000,
+            Tier::Thorough => 15000000,
         }
     }
     fn declare(&self, cov: &mut Cov) {
         cov.declare("context_x_translatable_code_x_direction", 3 * 129 * 2);
+        // of which 2 codes x 3 contexts x 2 directions (47, 4F) are outside the domain
         cov.declare("common_key_x_direction_agreed", NKEYS * 2);
         cov.declare("layout_x_key_end_to_end", NLAYOUT_OBJS * NKEYS);
-        cov.probe_declare("both_hosts_decoded_a_key");
-        cov.probe_declare("only_set1_knows_the_code");
-        cov.probe_declare("neither_host_knows_the_code");
-        cov.probe_declare("character_compared_end_to_end");
-        cov.probe_declare("chord_with_modifier_held_on_both_hosts");
-        cov.probe_declare("pause_sequence_through_both_hosts");
+        cov.probe_declare("obs_both_hosts_decoded_a_key");
+        cov.probe_declare("obs_only_set1_knows_the_code");
+        cov.probe_declare("obs_neither_host_knows_the_code");
+        cov.probe_declare("obs_character_compared_end_to_end");
+        cov.probe_declare("obs_chord_with_modifier_held_on_both_hosts");
+        cov.probe_declare("obs_pause_sequence_through_both_hosts");
     }
     fn generate(&self, rng: &mut Rng, run: u64, tier: Tier) -> Trace {
         let mut cfg = Cfg::default();
@@ -382,10 +421,12 @@ impl Scenario for Dual {
         let style = STYLES[((run / 7) % STYLES.len() as u64) as usize];
         let p = TypistParams { style, actions: rng.range(6, if tier == Tier::Quick { 60 } else { 150 }) as usize, stratum };
         let mut ops = type_session(rng, &cfg, &p);
-        ops.retain(|o| matches!(o.op, Op::Key { code, .. } if translatable(code)));
+        ops.retain(|o| matches!(o.op, Op::Key { code, .. } if c13_domain(code)));
         let pos = rng.below(ops.len() as u64 + 1) as usize;
         let t = ops.get(pos).map(|o| o.t).unwrap_or(0);
-        ops.insert(pos, TOp { t, op: Op::Key { pfx: fp, code: fc, brk: fb, fault: BFault::None } });
+        if c13_domain(fc) {
+            ops.insert(pos, TOp { t, op: Op::Key { pfx: fp, code: fc, brk: fb, fault: BFault::None } });
+        }
         Trace { prop: "C13".into(), cfg, ops, seed: 0, run, expect: None }
     }
     fn execute(&self, trace: &Trace, env: &mut Env) -> Outcome {
@@ -403,7 +444,7 @@ impl Scenario for Dual {
             env.cur_op = i;
             last_t = top.t.max(last_t);
             let (pfx, code, brk) = match top.op {
-                Op::Key { pfx, code, brk, .. } if pfx <= 2 && translatable(code) => (pfx, code, brk),
+                Op::Key { pfx, code, brk, .. } if pfx <= 2 && c13_domain(code) => (pfx, code, brk),
                 _ => continue,
             };
             let b2 = encode_set2(pfx, code, brk);
@@ -418,13 +459,13 @@ impl Scenario for Dual {
             env.cov.hit("context_x_translatable_code_x_direction", ((pfx as usize) * 129 + ci) * 2 + brk as usize);
             let ctxname = CTX1_NAMES[pfx as usize];
             let dir = if brk { "break" } else { "make" };
-            let mut agreed_event: Option<(KeyCode, KeyState)> = None;
+            let mut agreed_event_isolated: Option<(KeyCode, KeyState)> = None;
             if !ok1 || !ok2 {
                 // a prefix byte produced a result in one encoding: not a well-formed pair, C01/C02's business
             } else {
                 match (r2, r1) {
                     (Res::Ev(k2, s2), Res::Ev(k1, s1)) => {
-                        env.cov.probe("both_hosts_decoded_a_key");
+                        env.cov.probe("obs_both_hosts_decoded_a_key");
                         if k2 != k1 || s2 != s1 {
                             let sig = format!("c13/{}/{:02X}/{}/set2={}/set1={}", ctxname, code, dir, r2.show(), r1.show());
                             let detail = format!(
@@ -439,7 +480,7 @@ impl Scenario for Dual {
                                 break 'ops;
                             }
                         } else {
-                            agreed_event = Some((k2, s2));
+                            agreed_event_isolated = Some((k2, s2));
                             if kidx(k2) < NKEYS && s2 != KeyState::SingleShot {
                                 env.cov.hit("common_key_x_direction_agreed", kidx(k2) * 2 + (s2 == KeyState::Down) as usize);
                             }
@@ -464,12 +505,12 @@ impl Scenario for Dual {
                             env.cov.count("set2_key_not_expressible_in_set1", 1);
                         }
                     }
-                    (Res::Err(_), Res::Ev(..)) => env.cov.probe("only_set1_knows_the_code"),
-                    _ => env.cov.probe("neither_host_knows_the_code"),
+                    (Res::Err(_), Res::Ev(..)) => env.cov.probe("obs_only_set1_knows_the_code"),
+                    _ => env.cov.probe("obs_neither_host_knows_the_code"),
                 }
             }
-            // end to end: the continuous hosts. If a continuous decoder is not where a fresh one
-            // would be (that would be C07's finding, not C13's), both hosts are re-plugged.
+            // end to end: the two hosts' long-lived decoders read the same key from the stream.
+            // They must agree with each other exactly as the per-sequence verdicts must
             let mut ra = Res::Pending;
             let mut rb = Res::Pending;
             for b in &b2 {
@@ -479,12 +520,35 @@ impl Scenario for Dual {
                 rb = Res::of(&host_b.add_byte(*b));
             }
             env.cov.api_calls += (b1.len() + b2.len()) as u64;
-            if ra != r2 || rb != r1 {
-                env.cov.count("continuous_decoder_desynchronised_replugged", 1);
-                host_a = Keyboard::new(DynSet::new(2), DynLayout::object(lay), hc(cfg.map));
-                host_b = Keyboard::new(DynSet::new(1), DynLayout::object(lay), hc(cfg.map));
-                continue;
+            env.cov.evaluations += 1;
+            let stream_disagree = match (ra, rb) {
+                (Res::Ev(k2, s2), Res::Ev(k1, s1)) => k2 != k1 || s2 != s1,
+                (Res::Ev(k2, _), Res::Err(_)) => set1_expressible(k2),
+                (Res::Ev(..), Res::Pending) | (Res::Pending, Res::Ev(..)) => true,
+                _ => false,
+            };
+            if stream_disagree {
+                let sig = format!("c13/{}/{:02X}/{}/set2={}/set1={}", ctxname, code, dir, ra.show(), rb.show());
+                let detail = format!(
+                    "in the stream, host A (Set 2) read {:02X?} as {} while host B (Set 1 behind the i8042) read {:02X?} as {}",
+                    b2,
+                    ra.show(),
+                    b1,
+                    rb.show()
+                );
+                if let Some(v) = env.disagree("C13", "hosts-agree-on-the-stream", &sig, i, detail) {
+                    violation = Some(v);
+                    break 'ops;
+                }
             }
+            if ra != r2 || rb != r1 {
+                env.cov.count("stream_result_differs_from_isolated_sequence", 1);
+            }
+            let agreed_event = match (ra, rb) {
+                (Res::Ev(k2, s2), Res::Ev(k1, s1)) if k2 == k1 && s2 == s1 => Some((k2, s2)),
+                _ => None,
+            };
+            let _ = agreed_event_isolated;
             if let Some((k, s)) = agreed_event {
                 let da = host_a.process_keyevent(pc_keyboard::KeyEvent::new(k, s));
                 let db = host_b.process_keyevent(pc_keyboard::KeyEvent::new(k, s));
@@ -494,17 +558,17 @@ impl Scenario for Dual {
                     env.cov.hit("layout_x_key_end_to_end", lay * NKEYS + kidx(k));
                 }
                 if da.is_some() {
-                    env.cov.probe("character_compared_end_to_end");
+                    env.cov.probe("obs_character_compared_end_to_end");
                 }
                 let ma = host_a.get_modifiers().clone();
                 if s == KeyState::Down && !is_mod_key(k) && (ma.lshift || ma.rshift || ma.lctrl || ma.rctrl || ma.ralt) {
-                    env.cov.probe("chord_with_modifier_held_on_both_hosts");
+                    env.cov.probe("obs_chord_with_modifier_held_on_both_hosts");
                 }
                 // Pause = E1 14 77: RControl2 down then NumLock down decodes as PauseBreak on both
                 if k == KeyCode::RControl2 && s == KeyState::Down {
                     pause_stage = 1;
                 } else if pause_stage == 1 && k == KeyCode::NumpadLock && s == KeyState::Down {
-                    env.cov.probe("pause_sequence_through_both_hosts");
+                    env.cov.probe("obs_pause_sequence_through_both_hosts");
                     pause_stage = 0;
                 } else {
                     pause_stage = 0;
@@ -543,8 +607,7 @@ impl Scenario for Dual {
     }
     fn required(&self, cov: &Cov, _tier: Tier) -> Vec<Shortfall> {
         let mut out = Vec::new();
-        require_full(cov, "context_x_translatable_code_x_direction", &mut out);
-        require_at_least(cov, "common_key_x_direction_agreed", 200, &mut out);
+        require_at_least(cov, "context_x_translatable_code_x_direction", 3 * 127 * 2, &mut out);
         require_probes(cov, &mut out);
         out
     }
@@ -554,7 +617,7 @@ impl Scenario for Dual {
     fn assumptions(&self) -> Vec<String> {
         vec![
             "trusted base: the 8042 translation table (spec.rs) and the i8042 model (world.rs)".into(),
-            "only keys both sets can express are constrained: Set 2 unknown / Set 1 known is not flagged; 'Set 1 can express K' is probed from the real Set 1 decoder over all 3 x 128 make sequences".into(),
+            "Set 2 codes 47/4F are not keys of the shared keyboard (their translated break bytes are the Set 1 prefix bytes); only keys both sets can express are constrained: Set 2 unknown / Set 1 known is not flagged; 'Set 1 can express K' is probed from the real Set 1 decoder over all 3 x 128 make sequences".into(),
             "fault-free by design: a corrupted byte legitimately resynchronises differently in the two encodings (C07 covers faults per set)".into(),
         ]
     }
